@@ -312,8 +312,77 @@ def _hexify(e):
     return out
 
 
+def leg_b(ctx):
+    """exact conformance of the algorithm model with the real table on B-bit ids (spec drift, never a violation)"""
+    from lbry.dht import constants
+    B = 7
+    shift = BITS - B
+    rng = ctx.rng
+    n = 400 if ctx.thorough else 40
+    traces = []
+    for _ in range(n):
+        t = RealTable(rng)
+        evs, known, next_addr = [], [], 0
+        for _ in range(rng.choice([25, 45, 70])):
+            t.touch_liveness()
+            t.alive = {a for a in range(next_addr + 1) if rng.random() < 0.5}
+            # what the eviction rule will consult, read through PeerManager's public API before the call
+            now = t.loop.time()
+            ng = []
+            for p in t.rt.get_peers():
+                good = t.pm.contact_triple_is_good(p.node_id, p.address, p.udp_port)
+                lr = t.pm.get_last_replied(p.address, p.udp_port)
+                if good is not True and (not lr or lr + 60 < now):
+                    ng.append(t.proj(p))
+            if known and rng.random() < 0.2:
+                d, a = rng.choice(known)
+                ev = t.remove(d, a)
+                ev['ng'], ev['hr'], ev['ok'] = [], False, False
+            else:
+                d = rng.randrange(1, 1 << B) << shift if rng.random() < 0.8 or not known else rng.choice(known)[0]
+                if rng.random() < 0.7 or not known:
+                    a = next_addr
+                    next_addr += 1
+                else:
+                    a = rng.choice(known)[1]
+                # the head of the bucket the newcomer falls into (before the call), for `hr`
+                idx = next((i for i, b in enumerate(t.rt.buckets) if b.range_min <= d < b.range_max), None)
+                head = t.rt.buckets[idx].peers[0] if idx is not None and t.rt.buckets[idx].peers else None
+                lr = t.pm.get_last_replied(head.address, head.udp_port) if head else None
+                hr = bool(lr and lr + 60 > now)
+                ev = t.add(d, a)
+                ev['ng'] = ng
+                ev['hr'] = hr
+                ev['ok'] = not ev['failed']
+            evs.append(ev)
+            known = [(p['d'], p['a']) for b in t.buckets() for p in b['peers']]
+
+        def sc(p):
+            return {'d': p['d'] >> shift, 'a': p['a']}
+        out = []
+        for e in evs:
+            o = {'event': e['event'], 'p': sc(e['p']), 'res': bool(e.get('res', False)), 'raised': e['raised'],
+                 'ng': [sc(x) for x in e['ng']], 'hr': e['hr'], 'ok': e['ok'],
+                 'post': [{'min': b['min'] >> shift, 'max': b['max'] >> shift, 'peers': [sc(x) for x in b['peers']]} for b in e['post']]}
+            out.append(o)
+        traces.append({'ev': out})
+        ctx.count(('replay', len(out), rng.random()), nontrivial=True)
+    cfg = make_model_cfg(B, constants.K, 0, 1, [], view=False, symmetry=False).replace('SPECIFICATION Spec', 'SPECIFICATION RSpec') \
+        + 'CONSTRAINT Reached\nPOSTCONDITION Report\n'
+    verdicts = tlc.validate_traces('RoutingTableReplay', cfg, traces, ctx, label='RoutingTableReplay', chunk=500, timeout=1800)
+    drift = sum(1 for v in verdicts if v.get('drift'))
+    bad = [v for v in verdicts if not v['accepted']]
+    if bad:
+        raise MachineryError(f'replay trace not consumed at {bad[0]["matched"]}')
+    ctx.cov['traces_validated_against_impl'] += len(traces)
+    ctx.leg('B', replayed_histories=len(traces), calls=sum(len(t['ev']) for t in traces), spec_drift=drift)
+    if drift:
+        print(f'NOTE: {drift} replayed histories diverged from the algorithm of RoutingTable.tla (spec drift; the property is judged by Leg C)')
+
+
 def run(ctx):
     leg_a(ctx)
+    leg_b(ctx)
     leg_c(ctx)
     ctx.cov['rule'] = ('Leg A: all states of RoutingTable.tla in the stated constants. Leg C: seeded histories of 20-90 calls '
                        '(add / re-add / same-address / same-id / remove / query, with liveness book-keeping and probe outcomes drawn '
